@@ -54,7 +54,11 @@ Alphabet (every case is a complete configuration; inside it every non-origin gri
              used on the 3-point grid through every method (each constructor deep-copies and truncates the model); the model
              is deep copied. Then the complete oracle runs on the model with a grid constructed now against a reference
              model constructed now (keys end in :model-reused), and the chain before, the chain after and the chain on the
-             deep copy must be the same (intensity, per-state rates, axes). 1-d: every model of the tier + the twins x
+             deep copy must be the same (intensity, per-state rates, axes). Round 8, 1-d: ONE measure object handed to
+             create_q_vector with four grids that share h = 0.1, 7 states and both end points (uniform, geometric with the
+             same bounds, base-class grid with other interior states, uniform again), each vector against the closed form
+             of a reference measure constructed now on the cells of that grid's own axis (keys
+             C01:history:measure:*:one-measure-many-grids). 1-d: every model of the tier + the twins x
              {uniform h = 0.1, geometric} (+ probability step, credit in thorough); copula: every copula model (+ reinit
              twins) x fixed n = 5 (2-d) / 3 (3-d). Catches parameter / memo state shared through class attributes, module
              caches or default arguments, and constructors that modify the model they are given.
